@@ -186,7 +186,8 @@ def main():
         "proof_problems": proof_problems,
         "build_wall_s": round(b.wall, 2) if b else None,
     }
-    C.write_evidence(pid, tier, seed, coverage, time.time() - t0, violations, getattr(prop, "assumptions", []))
+    C.write_evidence(pid, tier, seed, coverage, time.time() - t0, violations, getattr(prop, "assumptions", []),
+                     level="proof" if obligations > 0 else "exploration")
     if rc == 0:
         print("OK property=%s tier=%s theorems=%d/%d cases=%d distinct_nontrivial=%d wall=%.1fs" % (
             pid, tier, discharged, obligations, n_eval, len(distinct), time.time() - t0))
